@@ -760,6 +760,10 @@ class BaseProject(object, metaclass=ABCMeta):
 
         for step_time in sorted(new_absence_time_list):
             self.cost_list.insert(step_time, 0.0)
+            # the steps registered so far which are not before the inserted one move back
+            self.absence_time_list = [
+                t + 1 if t >= step_time else t for t in self.absence_time_list
+            ]
 
         self.time = self.time + len(new_absence_time_list)
         self.absence_time_list.extend(new_absence_time_list)
